@@ -65,6 +65,10 @@ ASSUMPTIONS = [
     "history theorems: (b) re-prefix/validate sequences -- proved for ALL sequences, cache-fill policies and groups; (a) an "
     "object built under A and judged under B -- partial (hypotheses = absence of the known findings C13-F5, C13-F6), both "
     "refuted by concrete witnesses that are replayed on the code",
+    "unit classes, units and unit modifiers are NOT modelled: the equivalence over annotations with unit-class values "
+    "(generated from the schema's own unit/modifier tables, well- and ill-formed) and over configurations with several "
+    "libraries merged under one non-empty prefix is tested on the implementation only; the model proves only that the "
+    "merged TAG table does not depend on the prefix",
     "'same library twice' is read as: the same version text twice under ONE prefix (the same library under two "
     "different prefixes is accepted by the code and by the model; both sides are tested)",
 ]
@@ -91,6 +95,8 @@ def fname(k):
 
 # configurations: (version list, {prefix: schema key})
 CONFIGS_QUICK = [
+    # several partnered libraries merged under ONE non-empty prefix (the merge re-finalises a prefixed schema)
+    (["8.2.0", "x:score_1.1.0", "x:testlib_2.0.0"], {"": "8_2_0", "x:": "score_1_1_0+testlib_2_0_0"}),
     (["8.2.0", "sc:score_1.1.0", "tl:testlib_2.0.0"], {"": "8_2_0", "sc:": "score_1_1_0", "tl:": "testlib_2_0_0"}),
     (["testlib_3.0.0", "xx:8.2.0", "t:testlib_2.1.0"], {"": "testlib_3_0_0", "xx:": "8_2_0", "t:": "testlib_2_1_0"}),
     (["8.3.0", "sc:score_2.0.0", "tl:testlib_3.0.0"], {"": "8_3_0", "sc:": "score_2_0_0", "tl:": "testlib_3_0_0"}),
@@ -116,13 +122,15 @@ CONFIGS_MORE = [
 CONFIGS_SINGLE = [
     (["8.3.0"], {"": "8_3_0"}),
     (["@8_2_0"], {"": "8_2_0"}),
-    (["score_1.1.0", "testlib_2.0.0"], {"": "!score_1_1_0"}),
+    (["score_1.1.0", "testlib_2.0.0"], {"": "score_1_1_0+testlib_2_0_0"}),
     (["tl:testlib_3.0.0"], {"tl:": "testlib_3_0_0"}),
+    (["lib:score_1.1.0,testlib_2.1.0"], {"lib:": "score_1_1_0+testlib_2_1_0"}),      # text form, nothing unprefixed
 ]
 CONFIGS_SINGLE_MORE = [
     (["sc:score_2.0.0"], {"sc:": "score_2_0_0"}),
     (["@testlib_2_1_0"], {"": "testlib_2_1_0"}),
-    (["xx:score_1.1.0", "xx:testlib_2.1.0"], {"xx:": "!testlib_2_1_0"}),
+    (["xx:score_1.1.0", "xx:testlib_2.1.0"], {"xx:": "score_1_1_0+testlib_2_1_0"}),
+    (["st:8.2.0", "ab:testlib_2.0.0,score_1.1.0"], {"st:": "8_2_0", "ab:": "testlib_2_0_0+score_1_1_0"}),
 ]
 
 
@@ -229,9 +237,14 @@ def w_group(vlist):
 
 
 def w_single(key):
+    """p's schema ALONE, unprefixed: one file, or ("a+b") several libraries merged under the unprefixed namespace"""
     if key not in _W["singles"]:
-        from hed.schema import load_schema
-        _W["singles"][key] = load_schema(os.path.join(_W["dir"], fname(key)))
+        if "+" in key:
+            from hed.schema import load_schema_version
+            _W["singles"][key] = load_schema_version([vkey(k) for k in key.split("+")], xml_folder=_W["dir"])
+        else:
+            from hed.schema import load_schema
+            _W["singles"][key] = load_schema(os.path.join(_W["dir"], fname(key)))
     return _W["singles"][key]
 
 
@@ -506,6 +519,21 @@ def t_cross(task):
                     emul = judge(hsB)
                 except Exception as ex:  # noqa
                     emul = [("EMUL-EXN:" + type(ex).__name__, 0)]
+            if FIXED5:
+                # what the code WITH fix-F5 is documented to do for such an object (class C13-F6): exactly one
+                # re-identification from the current short form (old extension kept unless replaced), then all checks
+                # on that state.  Rebuilt on a fresh object with B's own lookup; its re-identification is a stub.
+                try:
+                    hsA, hsB = HedString(t, A), HedString(t, B)
+                    for ta, tb in zip(hsA.get_all_tags(), hsB.get_all_tags()):
+                        e, rem, iss = B.find_tag_entry(str(ta), ta.schema_namespace)
+                        tb._schema_entry, tb._schema = e, B
+                        tb.tag_terms = e.tag_terms if e else tuple()
+                        tb._extension_value = rem if (e and rem) else ta._extension_value
+                        tb._calculate_to_canonical_forms = (lambda i: (lambda schema: i))(iss)
+                    emul = judge(hsB)
+                except Exception as ex:  # noqa
+                    emul = [("EMUL-EXN:" + type(ex).__name__, 0)]
         out.append((cross, fresh, pre, emul, f6able))
     return out
 
@@ -635,10 +663,67 @@ def fold_ok(s):
     return all(len(c.casefold()) == 1 and (c.casefold() == c or ord(c) < 128) for c in s)
 
 
+def unit_values(sch):
+    """For every value node with a unitClass: unit expressions of all kinds the schema defines -- plain units, SI name
+    modifiers on unit names, SI symbol modifiers on unit symbols, plurals, prefix units -- plus ill-formed ones
+    (symbol modifier on a name, doubled modifier, bare modifier, wrong case of a symbol, unit of another class)."""
+    mods_name = [m["name"] for m in sch["unit_modifiers"] if "SIUnitModifier" in m["attrs"]]
+    mods_sym = [m["name"] for m in sch["unit_modifiers"] if "SIUnitSymbolModifier" in m["attrs"]]
+    classes = {}
+    for uc in sch["unit_classes"]:
+        good, bad, pre = [], [], []
+        for u in uc["units"]:
+            a, n = u["attrs"], u["name"]
+            if "unitPrefix" in a:
+                pre.append(n)
+                continue
+            good.append(n)
+            sym = "unitSymbol" in a
+            if not sym:
+                good.append(n + "s")
+            else:
+                bad.append(n.swapcase() if n.swapcase() != n else n + n)
+            if "SIUnit" in a:
+                good += [m + n for m in (mods_sym if sym else mods_name)[::3]]
+                bad += [m + n for m in (mods_name if sym else mods_sym)[:2]]
+                bad += [(mods_sym if sym else mods_name)[0] * 2 + n] if (mods_sym if sym else mods_name) else []
+            if not sym and "SIUnit" in a:
+                good += [m + n + "s" for m in mods_name[:2]]
+        bad += mods_name[:1] + mods_sym[:1]
+        classes[uc["name"]] = (good, bad, pre)
+    allgood = [g for c in classes.values() for g in c[0]]
+    out = {}
+    for t in sch["tags"]:
+        ucs = t["attrs"].get("unitClass")
+        if t["short"] != "#" or not ucs or ucs is True:
+            continue
+        vals = []
+        for c in ucs:
+            good, bad, pre = classes.get(c, ([], [], []))
+            vals += [("v", g) for g in good] + [("v", b) for b in bad] + [("p", x) for x in pre]
+        vals += [("v", g) for g in allgood[::17]]
+        out[t["long"]] = vals
+    return out
+
+
+def gen_unit_value(rng, vals):
+    kind, u = rng.choice(vals)
+    num = rng.choice(["3", "2.5", "250", "-1", "0.001", "1e3", "3", "2"])
+    if kind == "p":
+        return rng.choice([u + " " + num, u + num, num + " " + u])
+    return rng.choice([num + " " + u, num + " " + u, num + " " + u, num + u, num + "  " + u, u, num])
+
+
 def gen_tag(rng, tags, exotic=True):
     t = rng.choice(tags)
+    if rng.random() < 0.25:
+        withunits = [x for x in tags if x.get("_unitvals")]
+        if withunits:
+            t = rng.choice(withunits)
     long = t["long"]
     parts = long.split("/")
+    if parts[-1] == "#" and t.get("_unitvals") and rng.random() < 0.75:
+        return parts[-2] + "/" + gen_unit_value(rng, t["_unitvals"])
     if parts[-1] == "#":
         parts = parts[:-1]
         base = parts[-1] + "/" + rng.choice(["3", "abc", "3 ms", "1.5", "#", "x y", "a:b", "12:30", "Red", "é", "3 m-per-s^2"])
@@ -833,7 +918,19 @@ def _run(rng, thorough, wide, res, model_ok, scratch):
     for f in glob.glob(os.path.join(C.REPO, SX.SCHEMA_DIR, "*.xml")):
         shutil.copy(f, cache)
     allsch = SX.load_all()
+    for k in ALL_KEYS:
+        uv = unit_values(allsch[k])
+        for t in allsch[k]["tags"]:
+            if t["long"] in uv:
+                t["_unitvals"] = uv[t["long"]]
     tagsets = {k: [t for t in allsch[k]["tags"] if fold_ok(t["long"])] for k in ALL_KEYS}
+    for _, pm in (CONFIGS_QUICK + CONFIGS_MORE + CONFIGS_SINGLE + CONFIGS_SINGLE_MORE):
+        for key in pm.values():
+            key = key.lstrip("!")
+            if "+" in key and key not in tagsets:
+                seen_long = set()
+                tagsets[key] = [t for k in key.split("+") for t in tagsets[k]
+                                if not (t["long"] in seen_long or seen_long.add(t["long"]))]
     configs = CONFIGS_QUICK + (CONFIGS_MORE if (thorough or wide) else [])
     n_multi = len(configs)
     configs = configs + CONFIGS_SINGLE + (CONFIGS_SINGLE_MORE if (thorough or wide) else [])
@@ -1077,6 +1174,8 @@ def _run(rng, thorough, wide, res, model_ok, scratch):
             H[hk] = H.get(hk, 0) + 1
             hk = "equiv:" + ("valid" if not any(sv == 1 for _, sv in obs[1]) else "invalid")
             H[hk] = H.get(hk, 0) + 1
+            if any(re.search(r"/-?[0-9][0-9.e]* *[A-Za-z$]", t) or re.search(r"/[$A-Za-z]+ ?[0-9]", t) for t in tags_of(a)):
+                H["equiv:value-with-unit"] = H.get("equiv:value-with-unit", 0) + 1
             hk = "equiv:tags=" + str(min(len(tags_of(a)), 6))
             H[hk] = H.get(hk, 0) + 1
             if not ok:
@@ -1110,8 +1209,8 @@ def _run(rng, thorough, wide, res, model_ok, scratch):
                         fid = "C13-F5"
                     elif emul == pre:
                         fid = "C13-F6"
-                elif vlA != vlB and f6able:
-                    fid = "C13-F6"      # with fix-F5 the single re-identification happens first: recognised by its cause
+                elif vlA != vlB and f6able and emul == cross:
+                    fid = "C13-F6"      # with fix-F5: the verdict is exactly that of the documented single re-identification
                 res.report("built-under-A-judged-under-B-equals-fresh",
                            {"kind": "cross", "built_under": vlA, "judged_under": vlB, "text": t},
                            f"A-built={cross} fresh={fresh} A-built-after-reidentification={pre} documented-reidentification={emul}", fid=fid)
